@@ -130,6 +130,9 @@ def classify(op, exc, ks, detail, seq):
         flags = []  # mode flags / references of a kept channel are consequences of it
     else:
         flags = ["flag-" + x for x in ks if x != "timeline"]
+        if "pulse" in kept:
+            # a kept pulse brings its post-phase-shift / last-used update with it
+            flags = [f for f in flags if f != "flag-refs"]
     return f"failed-call-changed-state:{k}:{cause_of(op, exc)}:" + "+".join(sorted(kept) + sorted(flags))
 
 
